@@ -83,7 +83,24 @@ int c03_type_ok(int cls)
 int c03_set(int cls, const char *k, const char *v, int aftermath)
 {
     spif_obj_t ko = word(k), vo = word(v);
-    int r = SPIF_MAP_SET(M[cls][0], ko, vo);
+    int r;
+    if (aftermath == 3) {
+        /* the value handed in is the map's own stored object: set(m, k, get(m, k)) must leave the entry as it is */
+        spif_obj_t own = SPIF_MAP_GET(M[cls][0], ko);
+        r = own ? SPIF_MAP_SET(M[cls][0], ko, own) : SPIF_MAP_SET(M[cls][0], ko, vo);
+        SPIF_OBJ_DEL(ko); SPIF_OBJ_DEL(vo);
+        return r;
+    }
+    if (aftermath == 4) {
+        /* pair form: set(m, pair, NULL).  The map keeps its own copies: the caller changes and deletes its pair afterwards */
+        spif_objpair_t p = spif_objpair_new_from_both(ko, vo);
+        r = SPIF_MAP_SET(M[cls][0], SPIF_OBJ(p), (spif_obj_t) NULL);
+        spif_str_append_from_ptr(SPIF_STR(p->key), (spif_charptr_t) "#mut"); spif_str_clear(SPIF_STR(p->value), 'Q');
+        spif_objpair_del(p);
+        SPIF_OBJ_DEL(ko); SPIF_OBJ_DEL(vo);
+        return r;
+    }
+    r = SPIF_MAP_SET(M[cls][0], ko, vo);
     if (aftermath == 1) { spif_str_append_from_ptr(SPIF_STR(ko), (spif_charptr_t) "#mut"); spif_str_prepend_char(SPIF_STR(vo), '!'); }
     else if (aftermath == 2) { spif_str_clear(SPIF_STR(ko), 'Q'); spif_str_clear(SPIF_STR(vo), 'Q'); }
     SPIF_OBJ_DEL(ko);
